@@ -39,7 +39,24 @@ func c11Hashers() []namedHasher {
 		{"constFF-32", func() hash.Hasher { return constHasher("f", 0xff, 32) }},
 		{"constFF-64", func() hash.Hasher { return constHasher("f", 0xff, 64) }},
 		{"ctr-40", func() hash.Hasher { return ctrHasher("ctr40", false, 40) }},
+		// long digests with leading zero bytes (truncation must count bytes, not integer size)
+		{"lead0-48", func() hash.Hasher { return leadZeroHasher("lz48", 1, 48) }},
+		{"lead00-64", func() hash.Hasher { return leadZeroHasher("lz64", 2, 64) }},
+		{"lead0-32", func() hash.Hasher { return leadZeroHasher("lz32", 1, 32) }},
+		{"lead0000-128", func() hash.Hasher { return leadZeroHasher("lz128", 4, 128) }},
 	}
+}
+
+// leadZeroHasher is a counter-mode hasher whose digest starts with z zero bytes.
+func leadZeroHasher(name string, z, size int) hash.Hasher {
+	inner := ctrHasher(name, false, size).(*fixedHasher)
+	return &fixedHasher{name: name, size: size, f: func(d []byte, n int) []byte {
+		out := inner.f(d, n)
+		for i := 0; i < z && i < len(out); i++ {
+			out[i] = 0
+		}
+		return out
+	}}
 }
 
 func ecSigBytes(r, s *big.Int) []byte {
@@ -231,6 +248,40 @@ func C11(run *mon.Run) {
 				}
 				judge("length", pk, q, a.c, msg, digest, nil)
 			}
+			// crafted key for which a signature with a tiny s exists: pick k and s', solve for d.
+			// Then r||s' verifies and r||(s'+n) (which fits in 32 bytes) must not.
+			for _, sp := range []*big.Int{big.NewInt(1), big.NewInt(2), new(big.Int).Lsh(big.NewInt(1), 64), new(big.Int).SetBytes(mon.RandBytes(r, 12)), new(big.Int).Sub(new(big.Int).Sub(new(big.Int).Lsh(big.NewInt(1), 256), a.c.N), big.NewInt(1))} {
+				if sp.Sign() == 0 {
+					continue
+				}
+				k := new(big.Int).Mod(new(big.Int).SetBytes(mon.RandBytes(r, 40)), a.c.N)
+				if k.Sign() == 0 {
+					continue
+				}
+				kg := a.c.C.Mul(a.c.G, k)
+				rr := new(big.Int).Mod(kg.X, a.c.N)
+				if rr.Sign() == 0 {
+					continue
+				}
+				e := a.c.HashToInt(digest)
+				dd := new(big.Int).Mul(sp, k)
+				dd.Sub(dd, e)
+				dd.Mul(dd, new(big.Int).ModInverse(rr, a.c.N))
+				dd.Mod(dd, a.c.N)
+				if dd.Sign() == 0 {
+					continue
+				}
+				csk, err := crypto.DecodePrivateKey(a.alg, dd.FillBytes(make([]byte, 32)))
+				if err != nil {
+					continue
+				}
+				cq := a.c.Pub(dd)
+				judge("small-s", csk.PublicKey(), cq, a.c, msg, digest, ecSigBytes(rr, sp))
+				if over := new(big.Int).Add(sp, a.c.N); over.BitLen() <= 256 {
+					judge("small-s-plus-n", csk.PublicKey(), cq, a.c, msg, digest, ecSigBytes(rr, over))
+				}
+				judge("small-s-twin", csk.PublicKey(), cq, a.c, msg, digest, ecSigBytes(rr, new(big.Int).Sub(a.c.N, sp)))
+			}
 			if bi < 3 {
 				run.Sample(map[string]any{"curve": a.n, "hasher": nh.name, "key": keyKind, "sig": mon.Hex(libSig)})
 			}
@@ -240,7 +291,7 @@ func C11(run *mon.Run) {
 	wg.Wait()
 	c11HasherErrors(run, run.Rand("errors"))
 	run.Require(run.Counter("reference-true") >= 100, "fewer than 100 reference-true verifications")
-	for _, k := range []string{"base", "twin", "r-boundary", "s-boundary", "swap", "other-message", "other-key", "other-curve", "bitflip", "length"} {
+	for _, k := range []string{"base", "twin", "r-boundary", "s-boundary", "swap", "other-message", "other-key", "other-curve", "bitflip", "length", "small-s", "small-s-plus-n"} {
 		run.Require(run.Counter("mut."+k) > 0, "mutation class not exercised: "+k)
 	}
 }
